@@ -308,7 +308,9 @@ def s_emit_u64(m, st, info, args):
          r"std::rt::panic_fmt", r"std::rt::begin_panic(::<.*>)?", r"std::panicking::begin_panic(::<.*>)?",
          r"core::panicking::panic_bounds_check", r"core::panicking::assert_failed(::<.*>)?",
          r"core::panicking::assert_failed_inner", r"core::panicking::unreachable_display(::<.*>)?",
-         r"core::option::unwrap_failed", r"core::option::expect_failed", r"core::result::unwrap_failed",
+         r"(core|std)::option::unwrap_failed", r"(core|std)::option::expect_failed", r"(core|std)::result::unwrap_failed",
+         r"(core|std)::panicking::.*", r"(core|std)::slice::index::slice_.*fail.*", r"(core|std)::str::slice_error_fail.*",
+         r"(core|std)::cell::panic_.*", r"(core|std)::char::.*do_panic.*", r"std::alloc::.*::handle_error",
          r"core::slice::index::slice_index_fail", r"core::slice::index::slice_(start|end)_index_len_fail",
          r"core::slice::index::slice_index_order_fail", r"core::str::slice_error_fail",
          r"std::alloc::handle_alloc_error", r"alloc::raw_vec::handle_error", r"alloc::raw_vec::capacity_overflow",
@@ -1062,13 +1064,26 @@ def find_next_instance(m, fn, iter_ty_name, depth=6):
 
 
 def drain_iterator(m, st, info, it_value, it_ty, on_item, on_done):
-    """drive `it.next()` (MIR) until None; on_item(x) for each, then on_done()."""
+    """drive the iterator argument of a summarised from_iter/extend with the
+    real (MIR) `into_iter` / `next` that mirdump pre-resolved for it."""
+    if isinstance(it_value, VecVal):
+        for x in it_value.items:
+            on_item(x)
+        return on_done()
+    if isinstance(it_value, Obj) and it_value.kind == "vec_into_iter":
+        for x in it_value.d["items"][it_value.d["i"]:]:
+            on_item(x)
+        return on_done()
     fn = m.p.fns[info["fn"]]
-    tname = m.p.types[it_ty]["s_"]
-    nxt = find_next_instance(m, fn, tname)
-    if nxt is None:
-        raise Unsupported("cannot locate Iterator::next for " + tname)
-    cell = Cell(it_value)
+    nxt = fn.get("iter_next")
+    into = fn.get("into_iter")
+    if nxt is None or into is None:
+        tname = m.p.types[it_ty]["s_"]
+        nxt = find_next_instance(m, fn, tname)
+        into = None
+        if nxt is None:
+            raise Unsupported("cannot locate Iterator::next for " + tname)
+    cell = Cell(None)
     ptr = Ptr(cell, ())
 
     def then(mach, st2, opt):
@@ -1079,6 +1094,17 @@ def drain_iterator(m, st, info, it_value, it_ty, on_item, on_done):
         on_item(opt.f[0])
         return TailCall(nxt, [ptr], then)
 
+    def start(mach, st2, itv):
+        if isinstance(itv, VecVal):
+            for x in itv.items:
+                on_item(x)
+            return on_done()
+        cell.v = itv
+        return TailCall(nxt, [ptr], then)
+
+    if into is not None:
+        return TailCall(into, [it_value], start)
+    cell.v = it_value
     return TailCall(nxt, [ptr], then)
 
 
